@@ -260,10 +260,18 @@ def generate_for_reference(
     elif enum:
         value = enum.values[0].value
         yield (True, value)
+        # The custom value must not be one of the declared values.
+        declared = {item.value for item in enum.values}
         if isinstance(value, int):
-            yield (bool(enum.supportsCustomValues), 12345)
+            custom_int = 12345
+            while custom_int in declared:
+                custom_int += 1
+            yield (bool(enum.supportsCustomValues), custom_int)
         elif isinstance(value, str):
-            yield (bool(enum.supportsCustomValues), "testCustomValue")
+            custom_str = "testCustomValue"
+            while custom_str in declared:
+                custom_str += "_"
+            yield (bool(enum.supportsCustomValues), custom_str)
     else:
         raise ValueError(f"Unknown reference {refname}")
 
